@@ -28,7 +28,8 @@ MODEL_FILES = ['Parser/PyStr.v', 'Parser/Lex.v', 'Parser/Format.v', 'Parser/Symb
 K_NAME = ('K_parse (extracted Parser.ParseModel.parse_model_M vs fsic.parse_model: outcome class + every Symbol field) + component level: '
           'K_lex (Lex.toks vs term_re.finditer: every span, kind, name, index), K_eqre (Split.stmt_ok vs equation_re.search), '
           'K_split (Split.split_M vs split_equations_iter: every statement + the closing exception), '
-          'K_emit (ParseModel.n_emitted vs the number of converter calls of build_model_definition)')
+          'K_emit (ParseModel.n_emitted vs the number of converter calls of build_model_definition), '
+          'K_lines (Split.model_lines vs str.splitlines + the nested strip_comments helper)')
 RULE = ('exhaustive: every string up to length 4 (quick) / 5 (thorough) over the 30-symbol alphabet a Y i f s n 1 _ blank newline '
         '= + - * / . , ( ) [ ] { } < > ` # \' " e-acute, in shards of 900 strings (one case = one shard, so `evaluations` counts '
         'shards: multiply by 900), plus a random slice of the next length; plus C01-grammar scripts and their mutations (token '
@@ -75,6 +76,8 @@ def _expected(s):
         if in_fence:
             cur.append(line)
             if line.startswith('```'):
+                if line.strip('`'):
+                    reasons.add('fence-line-trailing-text')
                 in_fence = False
                 if fence_depth != 0:
                     reasons.add('fence-unbalanced')
@@ -84,6 +87,8 @@ def _expected(s):
                 fence_depth += line.count('(') - line.count(')')
             continue
         if line.startswith('```'):
+            if line.strip('`'):
+                reasons.add('fence-line-trailing-text')
             if depth > 0:
                 reasons.add('fence-in-brackets')
             if not cur:
@@ -127,7 +132,7 @@ def in_finding_class(s):
     """Syntactic membership in the guard class of a kept finding (the model mirrors a defect there: a K disagreement
     confined to such inputs is not reported, so that a later repair of the defect raises no alarm)."""
     texts, unclosed, reasons = _expected(s)
-    if unclosed or 'fence-in-brackets' in reasons:      # #24; the fence-inside-brackets ValueError
+    if 'fence-in-brackets' in reasons or 'fence-line-trailing-text' in reasons:      # the two shapes of the ValueError finding
         return True
     norm = [re.sub(r'\s+', '', t) for t in texts if not t.startswith('`')]     # verbatim blocks are never merged
     if len(set(norm)) < len(norm):
@@ -212,8 +217,6 @@ def _snapshot():
 def _classify_count(s, texts, emitted, unclosed):
     """why the number of emitted equations differs from the number of statements (observations of the real parser only)"""
     import fsic
-    if unclosed:
-        return 'unclosed-fence'
     per = []
     for t in texts:
         try:
@@ -273,6 +276,33 @@ def split_line(s):
     return ';'.join(out) + '|' + err
 
 
+_STRIP = []
+
+
+def real_strip_comments():
+    """the nested helper strip_comments of split_equations_iter (it has no free variables), or a module-level function of
+    that name; None when the code has been reorganised so that neither exists (the component check is then skipped)"""
+    if not _STRIP:
+        import types
+        import fsic
+        fn = None
+        f = fsic.parser.split_equations_iter
+        for c in f.__code__.co_consts:
+            if isinstance(c, types.CodeType) and c.co_name == 'strip_comments' and not c.co_freevars:
+                fn = types.FunctionType(c, f.__globals__)
+        if fn is None and callable(getattr(fsic.parser, 'strip_comments', None)):
+            fn = fsic.parser.strip_comments
+        _STRIP.append(fn)
+    return _STRIP[0]
+
+
+def lines_line(s):
+    fn = real_strip_comments()
+    if fn is None:
+        return None
+    return 'M:' + ';'.join(pc.hx(fn(l)) for l in s.splitlines())
+
+
 def observe(s, light=False):
     """Everything the property talks about, on the real code, for one script."""
     import fsic
@@ -283,6 +313,9 @@ def observe(s, light=False):
         o['lex'] = lex_line(s)
         o['eqre'] = eqre_line(s)
         o['split'] = split_line(s)
+        ml = lines_line(s)
+        if ml is not None:
+            o['mlines'] = ml
     # (1) check_syntax=False: the K observable
     try:
         o['nc'] = 'O:' + pc.enc_symbols(fsic.parse_model(s, check_syntax=False))
@@ -455,9 +488,9 @@ def impl(case):
 # --------------------------------------------------------------------------- cases
 CORPUS = [
     'Y = C + I + G', 'C = {alpha_1} * YD + {alpha_2} * H[-1]', 'C = ({alpha_1} * YD +\n     {alpha_2} * H[-1])', '(C =\n     {alpha_1} * YD +\n     {alpha_2} * H[-1])',
-    'Y = X\n```\nfoo = 1\nZ = W',                 # 24 unclosed fence
+    'Y = X\n```\nfoo = 1\nZ = W', '```', '```\nx = (', 'Y = (X\n```', '```\n```\n```', 'Y = X\n````\nfoo',      # unclosed fence: ParserError since 85765d5
     'Y = X\n```\nfoo = 1\n```\nZ = W', '```\nx = 1\n```', '`x = 1`', '`x = f()`', '`x = canary_fn()`',
-    '(\n```\n```\n)', 'a(\n```\n```\n)',          # NEW: ValueError from split('=')
+    '(\n```\n```\n)', 'a(\n```\n```\n)', '```\nfoo```\n```x', '```\n(\n```\n)', '```\nfoo\n```x', '```python\nx = 1\n```',   # NEW: ValueError from split('=')
     'Y = Y[-1] + 1\nY = Y[-1] + 1', 'Y = X\nY = X', 'Y = X\nY =  X', 'Y = X[0]\nY = X',            # duplicates merge
     'Y,Z = 1,2', 'a.b = 1', 'Y[a=b]',                                                             # several names on the left
     'Y = Y(1)', 'a=a()', 'Y = exp + exp(X)', 'exp = exp(X)',                                      # 19
@@ -601,6 +634,7 @@ def correspond(cases, obs, tag, tier):
     # --- single scripts: the components
     for cmd, key, what, filt in (('T', 'lex', 'term_re.finditer', lex_finding_class), ('K', 'eqre', 'equation_re.search', None),
                                  ('S', 'split', 'split_equations_iter', in_finding_class),
+                                 ('M', 'mlines', 'str.splitlines + strip_comments (Split.model_lines)', None),
                                  ('N', 'emit_nc', 'build_model_definition: number of equations / blocks emitted', in_finding_class)):
         idx = [i for i in s_idx if key in obs[i]]
         ans, errs = pc.run_driver(['%s %s' % (cmd, pc.hx(cases[i]['s'])) for i in idx])
